@@ -62,6 +62,8 @@ def scn_faults(ctx):
         def wrapped(*a, **kw):
             k = counts.get(name, 0)
             counts[name] = k + 1
+            if p.get("points_in_user_code") and name in ("should_retry", "sleep_time"):
+                sched.point()  # user code takes time: other threads may run meanwhile
             if armed[0] and budget[0] > 0 and k < maxk:
                 if ctx.choice(2, "fault@%s.%d" % (name, k)):
                     budget[0] -= 1
@@ -157,13 +159,14 @@ def scn_faults(ctx):
     cres = []
     if do_cancel and futs[0] is not None:
         def canceller():
-            sched.point()
-            try:
-                cres.append(futs[0].cancel())
-            except Exception as x:  # noqa
-                api_errors.append(("cancel", x))
+            for _ in range(int(do_cancel)):
+                sched.point()
+                try:
+                    cres.append(futs[0].cancel())
+                except Exception as x:  # noqa
+                    api_errors.append(("cancel", x))
         c = spawn("canceller", canceller)
-    futs[1] = guarded("submit", ex.submit, mk_callable(1))
+    futs[1] = guarded("submit", ex.submit, mk_callable(1)) if not p.get("single") else None
     for i in (0, 1):
         if futs[i] is not None:
             wait_done(futs[i], sched.now() + 100)
@@ -190,7 +193,7 @@ def scn_faults(ctx):
         if f is None:
             continue
         o = outcome(f)
-        if i == 0 and cres and cres[0] is True:
+        if i == 0 and cres and any(c_ is True for c_ in cres):
             ctx.check("cancelled-stays-cancelled", o == ("cancelled",), o)
             continue
         if not ctx.check("future-finishes", o[0] != "pending", "future %d pending after faults %s" % (i, [(r[0], r[1]) for r in raised])):
@@ -213,7 +216,7 @@ def scn_faults(ctx):
                 pol_fault = any(r[0] in ("should_retry", "sleep_time") for r in raised)
                 exp_ok = exp_ok or (pol_fault and o[0] == "error" and isinstance(o[1], Boom)) or \
                     ("map" in layers and o[0] == "value")
-            if i == 0 and cres and cres[0] is False:
+            if i == 0 and cres and not any(c_ is True for c_ in cres):
                 exp_ok = exp_ok or o[0] in ("value", "error")
             ctx.check("unrelated-future-unaffected", exp_ok, "future %d: %r although no fault belonged to it (faults %s, fails_first=%s)" % (
                 i, o, [(r[0], r[1], sorted(r[3])) for r in raised], fails_first))
@@ -254,4 +257,7 @@ def plan(tier, seed):
         items.append(dict(scenario="faults", params=dict(layers=s, nfaults=1, cancel=True), bounds=dict(P=0 if q else 1)))
     for pr in PAIRS:
         items.append(dict(scenario="faults", params=dict(layers=pr, nfaults=1 if q else 2, cancel=False), bounds=dict(P=0 if q else 1)))
+    # two cancel() calls racing with the retry decision and the submit thread's hand-over (no injected fault)
+    items.append(dict(scenario="faults", params=dict(layers=["retry"], nfaults=0, cancel=2, single=True, points_in_user_code=True), bounds=dict(P=2 if q else 3)))
+    items.append(dict(scenario="faults", params=dict(layers=["poll"], nfaults=1, cancel=2, single=True), bounds=dict(P=1 if q else 2)))
     return items
